@@ -1094,13 +1094,16 @@ func RaceWith[T any](sources ...Observable[T]) func(Observable[T]) Observable[T]
 				if !hasWinner {
 					// No winner yet, store the subscription
 					subscriptions[j] = sub
-				} else if !isWinner {
-					// Another source won, unsubscribe this one
-					sub.Unsubscribe()
 				}
 				// If this source won, keep the subscription active
 				mu.Unlock()
 				verifPoint("operator_combining:RaceWith:unlocked#0", nil)
+
+				if hasWinner && !isWinner {
+					// Another source won, unsubscribe this one. Out of the lock: a teardown that panics
+					// would otherwise leave the mutex locked for ever.
+					sub.Unsubscribe()
+				}
 			}
 
 			return func() {
